@@ -56,7 +56,9 @@ def jset(spec, path, val):
 
 
 class Gen:
-    def __init__(self, draw, max_top=6):
+    def __init__(self, draw, max_top=6, loggers=False):
+        self.loggers = loggers
+        self.nlog = 0
         self.draw = draw
         self.nodes = []
         self.used = set()
@@ -534,6 +536,21 @@ class Gen:
         o = {"id": self.fresh(), "type": self.typename("Parameter"), "tensor": self.values(dom, n)}
         return self.done(o, "vec", path, dom=dom, n=n, updatable=True, mag=self.MAG[dom])
 
+    def logger(self, path):
+        """a Runnable: torchtree.main runs it when its top-level element is complete; it writes the
+        current values of its (plain) parameters to a file in the working directory"""
+        o = {"id": self.fresh(), "type": self.typename("Logger")}
+        ps = []
+        for j in range(self.d(st.integers(1, 2))):
+            p = path + ["parameters", j]
+            n = self.d(st.integers(1, 3))
+            ps.append(self.ref_or(p, lambda x: x.kind == "vec" and x.cls == "Parameter" and getattr(x, "updatable", False), 0.8,
+                                  lambda p=p, n=n: self.new_leaf(p, self.d(st.sampled_from([REAL, POS, UNIT])), n)))
+        o["parameters"] = ps
+        self.nlog += 1
+        o["file_name"] = "log-%d.csv" % self.nlog
+        return self.done(o, "logger", path)
+
     KINDS = ["leaf"] * 4 + ["vec"] * 2 + ["dist"] * 4 + ["joint"] * 3 + ["site", "subst", "tree", "clock", "ctmc"]
 
     def program(self):
@@ -551,8 +568,10 @@ class Gen:
                 k = self.d(st.integers(1, 3))
                 n = self.d(st.integers(1, 3))
                 top.append(self.plate_params([t], k, n, self.d(st.sampled_from([REAL, POS, UNIT]))))
+            elif r in (3, 4) and self.loggers and t > 0:
+                top.append(self.logger([t]))
             elif r == 2 and self.nodes:
-                x = self.d(st.sampled_from(self.cands([t], lambda x: True) or [None]))
+                x = self.d(st.sampled_from(self.cands([t], lambda x: x.kind != "logger") or [None]))
                 if x is None:
                     top.append(self.top_object([t], "leaf"))
                 else:
@@ -722,9 +741,10 @@ JUNK = [
 COMMENTS = ["text", 3, None, ["a", "b"], {"id": "a", "type": "Parameter", "tensor": [1.0]}, {"_nested": 1}]
 
 
-def decorate(g, spec, live_ids):
+def decorate(g, spec, live_ids, ghosts=False):
     """sprinkle things that must have no effect; returns the number of decorations"""
     d = g.d
+    leaves = [x.id for x in g.nodes if x.kind == "vec" and x.cls == "Parameter" and getattr(x, "updatable", False)] if ghosts else None
     dicts, lists = [], []
 
     def walk(o, path):
@@ -739,7 +759,7 @@ def decorate(g, spec, live_ids):
                 walk(e, path + [i])
 
     walk(spec, [])
-    n = d(st.integers(1, 4))
+    n = d(st.integers(2, 5) if ghosts else st.integers(1, 4))
     done = 0
     # dict decorations first (do not move anything), list insertions afterwards from the back
     ins = []
@@ -754,19 +774,32 @@ def decorate(g, spec, live_ids):
             o = jget(spec, d(st.sampled_from(dicts)))
             key = d(st.sampled_from(["extra", "note", "mu2", "zz", "old"]))
             if key not in o:
-                o[key] = junk(d, live_ids)
+                o[key] = junk(d, live_ids, leaves)
                 done += 1
         elif lists:
             ins.append(d(st.sampled_from(lists)))
     for path in sorted(ins, key=lambda p: [str(x) for x in p], reverse=True):
         lst = jget(spec, path)
         pos = d(st.integers(0, len(lst)))
-        lst.insert(pos, junk(d, live_ids))
+        lst.insert(pos, junk(d, live_ids, leaves))
         done += 1
     return done
 
 
-def junk(d, live_ids):
+def junk(d, live_ids, leaves=None):
+    if leaves is not None and d(st.integers(0, 2)) > 0:
+        # ignored Runnables (they would write a ghost file) and ignored plates
+        leaf = d(st.sampled_from(leaves)) if leaves else "nowhere"
+        k = d(st.integers(0, 3))
+        ign = d(st.sampled_from([True, True, 1]))
+        if k == 0:
+            return {"id": "ghost", "type": "Logger", "parameters": [leaf], "file_name": "ghost-a.csv", "ignore": ign}
+        if k == 1:
+            return {"type": "torchtree.Plate", "range": "0:2", "var": "i", "ignore": ign,
+                    "object": {"id": "ghost.${i}", "type": "Logger", "parameters": [leaf], "file_name": "ghost-b.csv"}}
+        if k == 2:
+            return {"ignore": ign, "type": "Plate", "range": "1:3", "object": {"id": "ghostp.*", "type": "Parameter", "tensor": [1.0]}}
+        return {"type": "torchtree.Plate", "range": "0:1", "var": "k", "object": {"id": "ghostq.${k}", "type": "Parameter", "tensor": [1.0], "_c": 1}, "ignore": ign}
     j = copy.deepcopy(d(st.sampled_from(JUNK)))
     if "id" in j and live_ids and d(st.booleans()):
         j["id"] = d(st.sampled_from(sorted(live_ids)))
@@ -777,15 +810,17 @@ def junk(d, live_ids):
 
 # --------------------------------------------------------------------------- the strategy
 @st.composite
-def cases(draw, max_top=6):
-    g = Gen(draw, max_top)
+def cases(draw, max_top=6, loggers=False, heavy=False):
+    """loggers: Runnable Logger objects among the top-level elements; heavy: always decorated, with
+    ignored Runnables and ignored plates among the decorations"""
+    g = Gen(draw, max_top, loggers)
     spec = g.program()
     intent = "none"
-    if draw(st.booleans()):
+    if draw(st.sampled_from([False, False, True]) if heavy else st.booleans()):
         intent = inject(g, spec, draw(st.sampled_from(FAULTS)))
     ndec = 0
-    if draw(st.booleans()):
-        ndec = decorate(g, spec, g.used)
+    if heavy or draw(st.booleans()):
+        ndec = decorate(g, spec, g.used, ghosts=heavy)
     upd = {}
     ups = [x for x in g.nodes if getattr(x, "updatable", False)]
     if ups:
@@ -804,3 +839,7 @@ def cases(draw, max_top=6):
             else:
                 upd[x.id] = g.values(x.dom, x.n)
     return {"spec": spec, "updates": upd, "route": draw(st.integers(0, 7)), "intent": intent, "ndec": ndec}
+
+
+def cases_main():
+    return cases(max_top=5, loggers=True, heavy=True)
